@@ -39,10 +39,21 @@ def check_scope_routing(ctx, comp, rule="R-ID-SCOPE"):
                   R, f.lineno, witness=f"(let [f 1] (def{'n' if what == 'function' else 'class'} f …) f) still sees the let binding", detail="scope.define(name) before the body scope")
     im = rm.func("compile_import")
     ctx.require(im is not None, "compile_import not found")
-    defs = sorted(norm(c) for c in pyq.calls(im) if dotted(c.func) == "compiler.scope.define")
-    ctx.check(defs == ["compiler.scope.define(mangle(v))", "compiler.scope.define(prefix.split('.')[0])"], rule, f"{R}|compile_import|define",
-              f"import registers {defs}; it must register the mangled alias of each imported name and the first component of a dotted module", R, im.lineno,
-              witness="(import os.path) (defn f [] (nonlocal os) …) compiles to `nonlocal os`", detail=str(defs))
+    def _resolved(e):
+        if isinstance(e, ast.Name):
+            ds = [n.value for n in ast.walk(im) if isinstance(n, ast.Assign) and len(n.targets) == 1 and isinstance(n.targets[0], ast.Name) and n.targets[0].id == e.id]
+            if len(ds) == 1:
+                return ds[0]
+        return e
+
+    dargs = [_resolved(c.args[0]) for c in pyq.calls(im) if dotted(c.func) == "compiler.scope.define" and c.args]
+    kinds = sorted("mangled name" if isinstance(a, ast.Call) and dotted(a.func) == "mangle" else
+                   ("first component" if isinstance(a, ast.Subscript) and isinstance(a.slice, ast.Constant) and a.slice.value == 0 and isinstance(a.value, ast.Call)
+                    and isinstance(a.value.func, ast.Attribute) and a.value.func.attr == "split" else f"other: {norm(a)}") for a in dargs)
+    defs = kinds
+    ctx.decide(rule, f"{R}|compile_import|define", None if not dargs else kinds == ["first component", "mangled name"],
+               f"import registers {kinds}; it must register the mangled alias of each imported name and the first component of a dotted module", R, im.lineno,
+               witness="(import os.path) (defn f [] (nonlocal os) …) compiles to `nonlocal os`", detail=str(defs))
     dt = rm.func("compile_deftype")
     ctx.require(dt is not None, "compile_deftype not found")
     ctx.check(pyq.contains(dt, lambda n: isinstance(n, ast.Call) and norm(n) == "compiler.scope.define(mangle(name))") is not None, rule, f"{R}|compile_deftype|define",
